@@ -309,4 +309,58 @@ C10_run(H) ==
     /\ H.out.goroutines = 0
     /\ H.out.panic = ""
 
+
+(***************************************************************************)
+(* Engine-level formulas (scripted-driver traces: Send / Got / Return).    *)
+(* got = every value ReceiveProbe returned, in order; accepted = the ones  *)
+(* returned without error and inside the probed range.                     *)
+(***************************************************************************)
+EngAccepted(H) == SelectSeq(H.got, LAMBDA g : g.err = "" /\ g.ttl >= H.par.min /\ g.ttl <= H.par.max)
+EngFatal(H) == \E i \in DOMAIN H.got : H.got[i].err \in {"fatal", "nil"} \/ (H.got[i].err = "" /\ (H.got[i].ttl < H.par.min \/ H.got[i].ttl > H.par.max))
+NullHop == [k |-> "none"]
+EngMerge(res, g) == IF res[g.ttl].k = "none" \/ (~res[g.ttl].dest /\ g.dest)
+                    THEN [res EXCEPT ![g.ttl] = [k |-> "hop", dest |-> g.dest, addr |-> g.addr, rtt_us |-> g.rtt_us]] ELSE res
+RECURSIVE EngFold(_, _)
+EngFold(s, res) == IF s = <<>> THEN res ELSE EngFold(Tail(s), EngMerge(res, Head(s)))
+EngClip(par, res) ==
+    LET D == {t \in par.min..par.max : res[t].k = "hop" /\ res[t].dest}
+        last == IF D = {} THEN par.max ELSE Min(D)
+    IN [k \in 1..(last - par.min + 1) |->
+          LET r == res[par.min + k - 1] IN
+          IF r.k = "hop" THEN [ttl |-> par.min + k - 1, addr |-> r.addr, dest |-> r.dest, rtt_us |-> r.rtt_us]
+          ELSE [ttl |-> par.min + k - 1, addr |-> "", dest |-> FALSE, rtt_us |-> 0]]
+HopProj(hops) == [k \in DOMAIN hops |-> [ttl |-> hops[k].ttl, addr |-> hops[k].addr, dest |-> hops[k].dest, rtt_us |-> hops[k].rtt_us]]
+
+\* C07 (parallel): the output is Clip(Fold(accepted)) - first wins, destination overrides - whatever the schedule was
+C07_eng(H) == H.out.ok => HopProj(H.out.hops) = EngClip(H.par, EngFold(EngAccepted(H), [t \in H.par.min..H.par.max |-> NullHop]))
+\* C03: shape, and the list ends at the lowest TTL for which a destination reply was accepted
+C03_eng(H) ==
+    H.out.ok =>
+      /\ Shape(H.par, H.out.hops)
+      /\ LET a == EngAccepted(H)
+             D == {a[i].ttl : i \in {i \in DOMAIN a : a[i].dest}}
+         IN (~IsSerial(V(H)) \/ TRUE) =>
+              IF D = {} THEN Len(H.out.hops) = ProbeCount(H) ELSE Len(H.out.hops) = Min(D) - H.par.min + 1
+C06_eng(H) ==
+    LET s == SelectSeq(H.sent, LAMBDA x : ~x.fail)  a == EngAccepted(H) IN
+    /\ \A k \in DOMAIN s : s[k].ttl = H.par.min + k - 1
+    /\ Len(s) <= ProbeCount(H)
+    /\ \A k \in 2..Len(s) : s[k].t >= s[k - 1].t + H.par.delay_us
+    /\ \A i \in DOMAIN a : a[i].dest => Cardinality({k \in DOMAIN s : s[k].n > a[i].n}) <= 1
+C05_eng(H) ==
+    H.out.ok => \A k \in DOMAIN H.out.hops :
+        LET h == H.out.hops[k] IN
+        /\ h.rtt_us >= 0
+        /\ h.addr # "" => \E i \in DOMAIN H.got : H.got[i].err = "" /\ H.got[i].ttl = h.ttl /\ H.got[i].addr = h.addr
+                                /\ Abs(h.rtt_us - H.got[i].rtt_us) <= H.par.poll_us
+EngBound(par) == IF IsSerial(par.variant) THEN (par.max - par.min + 1) * (par.timeout_us + par.poll_us + par.delay_us)
+                 ELSE par.timeout_us + par.delay_us * (par.max - par.min + 1) + par.poll_us
+C08_eng(H) ==
+    /\ H.out.t <= EngBound(H.par)
+    /\ (H.cancel >= 0 /\ H.cancel < H.out.t) => (H.out.t <= H.cancel + H.par.poll_us + H.par.delay_us /\ ~H.out.ok /\ H.out.err.canceled)
+\* a failing driver call gives an error that wraps the cause and no result; no goroutine outlives the call
+C10_eng(H) ==
+    /\ ((\E i \in DOMAIN H.sent : H.sent[i].fail) \/ (\E i \in DOMAIN H.got : H.got[i].err = "fatal")) => (~H.out.ok /\ H.out.err.engfatal)
+    /\ EngFatal(H) => ~H.out.ok
+    /\ H.out.goroutines = 0 /\ H.out.panic = ""
 =============================================================================
